@@ -239,9 +239,9 @@ def c15(tier, seed):
             classes, max_vals, max_len = ['C'], 3, 70000
             cases = typegen(run, [(1, False, ['E', 'A'], None)], 'g')
         else:
-            classes, max_vals, max_len = ['A', 'C', 'P'], 14, 70000
-            cases = typegen(run, [(2, False, ['E', 'I', 'A'], None), (1, True, ['E', 'A'], None),
-                                  (5, True, ['E', 'I', 'A'], 'num=300')], 'g')
+            # (depth-2 BFS over three tag defaults with 14 values each did not finish in an hour and 6 GB)
+            classes, max_vals, max_len = ['A', 'C', 'P'], 8, 70000
+            cases = typegen(run, [(1, True, ['E', 'I', 'A'], None), (5, True, ['E', 'I', 'A'], 'num=200')], 'g')
         cpath = run.path('cases.ndjson')
         pl.write_cases(cases, cpath)
         empty = run.path('empty.ndjson')
